@@ -28,6 +28,8 @@ def main():
             import check_framing as M
         elif a.prop == 'C20':
             import check_msglog as M
+        elif a.prop in ('C06', 'C08', 'C09'):
+            import check_codec as M
         else:
             print('unknown property %s' % a.prop, file=sys.stderr)
             return 2
